@@ -64,7 +64,7 @@ func runListenerLimits(c *sim.Ctl) {
 		} else {
 			s.read, s.header, s.write, s.idle = durs[st.Draw(6)], durs[st.Draw(6)], durs[st.Draw(6)], durs[st.Draw(6)]
 		}
-		s.maxHdr = []int{0, 0, 2048, 8192, 32768}[st.Draw(5)]
+		s.maxHdr = []int{0, 0, 2048, 8192, 32768, 9223372036854775807}[st.Draw(6)] // (the last one: the largest size the directive accepts, "no limit worth the name")
 		sites = append(sites, s)
 	}
 	var b strings.Builder
@@ -172,7 +172,7 @@ func runListenerLimits(c *sim.Ctl) {
 		if wantHB == 0 {
 			wantHB = 0 // net/http default
 		}
-		if hs.Server.MaxHeaderBytes != wantHB {
+		if huge := wantHB > 1<<40; hs.Server.MaxHeaderBytes != wantHB && !(huge && hs.Server.MaxHeaderBytes > 1<<40) { // (a limit nobody reaches may be rounded)
 			c.Violate("C17/shared-header-limit-not-strictest", "", "listener MaxHeaderBytes is %d; the sites configure %v: the strictest is %d", hs.Server.MaxHeaderBytes, col(func(s llSite) int { return s.maxHdr }), wantHB)
 		}
 		c.Probe("effective-fields-read")
@@ -199,7 +199,14 @@ func runListenerLimits(c *sim.Ctl) {
 	e.Send([]byte("GET / HTTP/1.1\r\nHost: " + host + "\r\n\r\n"))
 	settle()
 	t0 := c.Now()
-	if got := string(e.Take()); !strings.HasPrefix(got, "HTTP/1.1 200") {
+	if got := string(e.Take()); strings.HasPrefix(got, "HTTP/1.1 431") {
+		c.Violate("C17/header-limit-behaviour", "ordinary-request-refused", "a request with a header of a few dozen bytes was answered %q; the sites configure header sizes %v (0 = unset)", trunc([]byte(got), 40), col(func(s llSite) int { return s.maxHdr }))
+		close(finish)
+		if !c.Drain(300, time.Second, func() bool { return opDone }) {
+			c.ReleaseAll()
+		}
+		return
+	} else if !strings.HasPrefix(got, "HTTP/1.1 200") {
 		panic("harness: listener rig got " + trunc([]byte(got), 60))
 	}
 	waitClose := func(e *sim.End, limit time.Duration) (time.Duration, bool) {
@@ -250,7 +257,17 @@ func runListenerLimits(c *sim.Ctl) {
 	e2.Close()
 
 	// (2c) request header size
-	if effHdrBytes > 0 {
+	if effHdrBytes > 1<<40 {
+		// a limit nobody reaches: an ordinary request passes
+		small := dial("smallheader")
+		small.Send([]byte("GET / HTTP/1.1\r\nHost: " + host + "\r\nX-Big: " + strings.Repeat("a", 4096) + "\r\n\r\n"))
+		settle()
+		if got := string(small.Take()); !strings.HasPrefix(got, "HTTP/1.1 200") {
+			c.Violate("C17/header-limit-behaviour", "small-refused", "a request header of about 4 KiB was answered %q; the smallest configured limit is %d", trunc([]byte(got), 40), effHdrBytes)
+		}
+		small.Close()
+		c.Probe("header-size-behaviour-checked")
+	} else if effHdrBytes > 0 {
 		big := dial("bigheader")
 		big.Send([]byte("GET / HTTP/1.1\r\nHost: " + host + "\r\nX-Big: " + strings.Repeat("a", effHdrBytes+8192) + "\r\n\r\n"))
 		settle()
